@@ -141,6 +141,7 @@ class VerilogTransformer(Transformer):
                         c.io_nodes[positions[name]] = n
                     if sd.kind == 'input':
                         Line(c, n, Node(c, name))
+        bit_assignments = []
         for target, source in assignments:  # pass 1.5: process signal assignments
             target_sigs = []
             if not isinstance(target, list): target = [target]
@@ -156,7 +157,10 @@ class VerilogTransformer(Transformer):
                     source_sigs += sig_decls[s].names
                 else:
                     source_sigs.append(s)
-            for t, s in zip(target_sigs, source_sigs):
+            bit_assignments += zip(target_sigs, source_sigs)
+        while len(bit_assignments) > 0:  # assignments may form chains in any order: repeat until no further signal gets driven
+            remaining = []
+            for t, s in bit_assignments:
                 if t in c.forks:
                     assert s not in c.forks, 'assignment between two driven signals'
                     Line(c, c.forks[t], Node(c, s))
@@ -167,6 +171,10 @@ class VerilogTransformer(Transformer):
                     cnode = Node(c, f'__const{s[3]}_{const_count}__', f'__const{s[3]}__')
                     const_count += 1
                     Line(c, cnode, Node(c, t))
+                else:
+                    remaining.append((t, s))
+            if len(remaining) == len(bit_assignments): break
+            bit_assignments = remaining
         for stmt in args[2:]:  # pass 2: connect signals to readers
             if isinstance(stmt, Instantiation):
                 for p, s in stmt.pins.items():
